@@ -11,7 +11,7 @@ A PTN value (`File`) is written as tokens: `T<name>:<value>` …, `|`, then
 
 `ParseTPS` is not modelled here: ops that need the start position carry the real function's
 answer for the file's `TPS` tag as `<hex of the tag value>=<position | err | panic>` (or `-`). -/
-namespace Driver
+namespace Driver.PTNOps
 open Tak Codec PTN
 
 def hexDigit (n : Nat) : Char := if n < 10 then Char.ofNat (48 + n) else Char.ofNat (87 + n)
@@ -196,4 +196,8 @@ def handlePTN : Handler := fun st op args =>
         fmtR (TextGlue.unmarshalWeights ⟨fun _ => lib⟩ TextGlue.featureNames (Array.replicate Facts.maxFeature 0) []) fmtInts)
   | _, _ => none
 
+end Driver.PTNOps
+
+namespace Driver
+def handlePTN : Handler := PTNOps.handlePTN
 end Driver
